@@ -2,6 +2,7 @@
 from __future__ import annotations
 
 import json
+import re
 
 from .. import config_h as H
 from ..core import canon
@@ -22,9 +23,15 @@ THEOREMS = [
     "c20_errors_classified",
     "c20_errors_surface",
     "c20_extra_members_ignored",
+    "c20_executable_exact",
+    "c20_path_command_verbatim",
+    "c20_executable_independent_of_host",
+    "c20_unresolvable_not_launched",
 ]
 RULE = (
-    "generated configuration documents (1..4 servers, 40% of the multi-server ones as FAMILIES: servers sharing command and args "
+    "generated configuration documents (1..4 servers; every 5th document uses BARE command names: copies of one witness "
+    "name in several directories, some on the host process's PATH, others named by PATH values of env blocks - env absent/"
+    "empty/own PATH first/own PATH last/PATH without it/no PATH - the witness that ran is identified by its directory; 40% of the multi-server ones as FAMILIES: servers sharing command and args "
     "and differing only in env / identical twins / sharing env and differing in args or command; args drawn from spaces/quotes/shell metacharacters/Unicode/empty "
     "strings/newlines; env absent/empty/1..3 values; timeout absent/int/float/string-number; extra members at every level) "
     "x entry point {load_config+stdio_client+send_initialize, __main__.test_server, server_manager.run_command} x "
@@ -36,6 +43,7 @@ TRUSTED = [
     "OS process launch, pipes, stdlib json decoder (sampled, not proved)",
 ]
 ASSUMPTIONS = [
+    "a bare command name is looked up on the PATH of the environment the child gets (execvpe semantics: configured env, library default when none, /bin:/usr/bin when that environment has no PATH); when no such file exists there the server cannot be launched and nothing is demanded beyond 'no other file is executed'",
     "an empty `env` object is the configured way of saying 'not given': the child then gets the library default environment (StdioClient: `self.server.env or get_default_environment()`)",
     "configuration documents have unique member names",
     "'reaches the initialize handshake' is read as: the launched child receives an `initialize` request",
@@ -129,8 +137,47 @@ def is_family(doc):
     return len(set(cmds)) < len(cmds)
 
 
-def valid_cases(rng, doc):
+SYS_PATH = "/usr/bin:/bin"
+
+
+def gen_bare_doc(rng):
+    """servers whose command is a bare NAME: copies of the witness under that name sit in directories 0..k;
+    some of the directories are on the host process's PATH, PATH values of env blocks name others.
+    -> (doc, bare)"""
+    ndirs = rng.choice([2, 2, 3])
+    dirs = list(range(ndirs))
+    host = rng.choice([[0], [0], [], [1, 0]])
+    n = rng.choice([1, 2, 2, 3])
+    servers = {}
+    for name in rng.sample(NAMES, n):
+        sc = {"command": BARE}
+        if rng.random() < 0.6:
+            sc["args"] = [rng.choice(ARGS) for _ in range(rng.randint(1, 3))]
+        how = rng.choice(["absent", "empty", "own-path", "own-path", "own-path-2", "sys-path", "no-path", "host-first"])
+        d = rng.choice(dirs)
+        if how == "empty":
+            sc["env"] = {}
+        elif how == "own-path":
+            sc["env"] = {"PATH": f"@D{d}:{SYS_PATH}", "FOO": rng.choice(ENV_VALS)}
+        elif how == "own-path-2":
+            sc["env"] = {"PATH": f"{SYS_PATH}:@D{d}:@D{(d + 1) % ndirs}"}
+        elif how == "sys-path":
+            sc["env"] = {"PATH": SYS_PATH, "X": "1"}
+        elif how == "no-path":
+            sc["env"] = {"FOO": "1"}
+        elif how == "host-first":
+            sc["env"] = {"PATH": ":".join(f"@D{i}" for i in (host or [0])) + f":@D{d}", "HOME": "/nonexistent"}
+        t = rng.choice(TIMEOUTS)
+        if t is not None:
+            sc["timeout"] = t
+        servers[name] = sc
+    return {"mcpServers": servers}, {"name": BARE, "dirs": dirs, "host": host}
+
+
+def valid_cases(rng, doc, bare=None):
     """the three entry points on one document"""
+    if bare is not None:
+        return [dict(c, bare=bare) for c in valid_cases(rng, doc)]
     names = list(doc["mcpServers"])
     out = []
     for e in ENTRIES:
@@ -167,13 +214,79 @@ def malformed_cases(rng, doc, which=None):
     return out
 
 
+BARE = "verif-mcp-witness"      # a command NAME (no directory part): found through PATH
+DEFPATH = "/bin:/usr/bin"       # what the OS searches when the child's environment has no PATH
+
+
+def executed(case, sc, env):
+    """which witness file the configuration selects: a path is taken as it stands, a bare name is
+    looked up on the PATH of the environment THE CHILD gets (execvpe); None: there is no such file"""
+    cmd = sc["command"]
+    if cmd.startswith("@W"):
+        return cmd
+    bare = case.get("bare") or {}
+    if cmd != bare.get("name"):
+        return None
+    for d in env.get("PATH", DEFPATH).split(":"):
+        if d.startswith("@D") and d[2:].isdigit() and int(d[2:]) in bare.get("dirs", []):
+            return "@W" + d[2:]
+    return None
+
+
 def expected_launches(case, default_env):
-    """what the configuration asks for — computed from the document alone (oracle side)"""
+    """what the configuration asks for — computed from the document alone (oracle side); a server whose
+    command does not exist in its own environment cannot be launched and is left out"""
     out = []
     for n in case["names"]:
         sc = case["doc"]["mcpServers"][n]
         env = sc.get("env") or default_env
-        out.append({"cmd": sc["command"], "argv": list(sc.get("args", [])), "env": dict(env)})
+        cmd = executed(case, sc, env)
+        if cmd is not None:
+            out.append({"cmd": cmd, "argv": list(sc.get("args", [])), "env": dict(env)})
+    return out
+
+
+def drop_unresolvable(case, launches, default_env):
+    """launches made for a requested server whose command does NOT exist in its own environment: today the
+    spawn fails; the property does not say what else may happen (a fallback lookup would be harmless), so
+    such launches are neither demanded nor held against the code"""
+    if case.get("file") != "ok" or not case.get("bare"):
+        return launches
+    servers = case["doc"].get("mcpServers", {})
+    unres = []
+    for n in case["names"]:
+        sc = servers.get(n)
+        if isinstance(sc, dict):
+            env = sc.get("env") or default_env
+            if executed(case, sc, env) is None:
+                unres.append((list(sc.get("args", [])), dict(env)))
+    out = []
+    for l in launches:
+        if (l["argv"], l["env"]) in unres:
+            unres.remove((l["argv"], l["env"]))
+            continue
+        out.append(l)
+    return out
+
+
+def _model_cmd(c):
+    m = re.match(r"@D(\d+)/", c) if isinstance(c, str) else None
+    return f"@W{m.group(1)}" if m else c
+
+
+def model_doc(doc):
+    """for the model a witness named by its path is `@D<i>/witness` (a command with a directory part)"""
+    doc = json.loads(json.dumps(doc))
+    for sc in (doc.get("mcpServers") or {}).values():
+        if isinstance(sc, dict) and isinstance(sc.get("command"), str) and sc["command"].startswith("@W"):
+            sc["command"] = f"@D{sc['command'][2:]}/witness"
+    return doc
+
+
+def model_files(case):
+    bare = case.get("bare") or {}
+    out = [f"@D{i}/witness" for i in H.placeholders(case.get("doc") or {})]
+    out += [f"@D{i}/{bare['name']}" for i in bare.get("dirs", [])]
     return out
 
 
@@ -199,12 +312,32 @@ class Entry(Suite):
         # same environment, launchers differ
         d3 = {"mcpServers": {"p": {"command": "@W0", "env": {"FOO": "1"}}, "q": {"command": "@W1", "env": {"FOO": "1"}},
                              "r": {"command": "@W0", "args": ["-"], "env": {"FOO": "1"}}}}
+        # bare command names: (a) no env -> host PATH; (b) env PATH selects ANOTHER copy than the host PATH;
+        # (c2) empty env -> default; (d) env PATH without it; (e) env without PATH -- (d), (e): nothing to launch
+        d4 = {"mcpServers": {"a": {"command": BARE, "args": ["x y"]},
+                             "b": {"command": BARE, "args": ["x y"], "env": {"PATH": f"@D1:{SYS_PATH}", "FOO": "1"}},
+                             "c2": {"command": BARE, "env": {}},
+                             "d": {"command": BARE, "env": {"PATH": SYS_PATH}},
+                             "e": {"command": BARE, "env": {"FOO": "1"}}}}
+        b4 = {"name": BARE, "dirs": [0, 1], "host": [0]}
+        # (c) only the configured PATH has it
+        d5 = {"mcpServers": {"c": {"command": BARE, "env": {"PATH": f"{SYS_PATH}:@D1"}}, "a": {"command": BARE}}}
+        b5 = {"name": BARE, "dirs": [1], "host": []}
+        for d, b in ((d4, b4), (d5, b5)):
+            for e in ENTRIES:
+                for n in (list(d["mcpServers"]) if e != "runner" else [None]):
+                    out.append({"entry": e, "file": "ok", "doc": d, "bare": b, "expect": "valid",
+                                "names": list(d["mcpServers"]) if e == "runner" else [n]})
         for d in (d0, d1, d2, d3):
             for e in ENTRIES:
                 out.append({"entry": e, "file": "ok", "doc": d, "names": list(d["mcpServers"]) if e == "runner" else [list(d["mcpServers"])[-1]],
                             "expect": "valid"})
         nconf = {"quick": 40, "thorough": 400, "search": 120}[budget]
         for i in range(nconf):
+            if i % 5 == 4:
+                doc, bare = gen_bare_doc(rng)
+                out += valid_cases(rng, doc, bare)
+                continue
             doc = gen_doc(rng)
             out += valid_cases(rng, doc)
             if budget == "quick":
@@ -225,19 +358,20 @@ class Entry(Suite):
         if o is None:
             return None
         if case["file"] == "ok":
-            f = {"k": "json", "v": case["doc"]}
+            f = {"k": "json", "v": model_doc(case["doc"])}
         elif case["file"] == "missing":
             f = {"k": "missing"}
         else:
             f = {"k": "invalid"}
         entry = case["entry"]
-        return {"m": "config", "entry": entry, "file": f, "names": case["names"], "dflt": o["default_env"]}
+        return {"m": "config", "entry": entry, "file": f, "names": case["names"], "dflt": o["default_env"],
+                "files": model_files(case)}
 
     def compare(self, case, o, m):
         if o.get("hang"):
             return "entry point did not return"
-        a = sorted(_launch_key(l) for l in o["launches"])
-        b = sorted(_launch_key({"cmd": l["argv"][0], "argv": l["argv"][1:], "env": l["env"]}) for l in m["launches"])
+        a = sorted(_launch_key(l) for l in drop_unresolvable(case, o["launches"], o["default_env"]))
+        b = sorted(_launch_key({"cmd": _model_cmd(l["argv"][0]), "argv": l["argv"][1:], "env": l["env"]}) for l in m["launches"])
         if a != b:
             return "launches differ"
         if any(l["handshake"] for l in m["launches"]) != any(l["init"] for l in o["launches"]) or \
@@ -259,7 +393,7 @@ class Entry(Suite):
             ld = m["load"]
             if "err" not in ld:
                 ret = o.get("ret") or {}
-                if (ret.get("command"), ret.get("args"), ret.get("env")) != (ld["command"], ld["args"], ld["env"]):
+                if (ret.get("command"), ret.get("args"), ret.get("env")) != (_model_cmd(ld["command"]), ld["args"], ld["env"]):
                     return "load_config parameters differ"
                 mt = None if ld["timeout"] is None else float(ld["timeout"])
                 if ret.get("timeout") != mt:
@@ -273,7 +407,7 @@ class Entry(Suite):
             return (f"hang/{e}", f"{e} did not return within {H.ENTRY_TIMEOUT_S + 30:.0f} s", None)
         if case["expect"] == "valid":
             want = expected_launches(case, o["default_env"])
-            got = o["launches"]
+            got = drop_unresolvable(case, o["launches"], o["default_env"])
             wk = sorted(_launch_key(l) for l in want)
             gk = sorted(_launch_key(l) for l in got)
             if wk != gk:
@@ -299,6 +433,11 @@ class Entry(Suite):
                             f"extra: {[l['cmd'] for l in rest_g]}", {"launches": want})
                 # same number (or both sides unmatched): pair the leftovers by command and say what differs
                 for w in rest_w:
+                    g = next((l for l in rest_g if l["cmd"] != w["cmd"] and l["argv"] == w["argv"] and l["env"] == w["env"]), None)
+                    if g is not None:
+                        return (f"wrong-executable/{e}", f"{e}: the configuration selects {w['cmd']} (command looked up in the "
+                                f"child's own environment), but {g['cmd']} was executed with its arguments and environment",
+                                {"launches": want})
                     g = next((l for l in rest_g if l["cmd"] == w["cmd"] and l["argv"] == w["argv"]), None) \
                         or next((l for l in rest_g if l["cmd"] == w["cmd"]), None)
                     if g is None:
@@ -312,7 +451,7 @@ class Entry(Suite):
             noinit = [l["cmd"] for l in got if not l["init"]]
             if noinit:
                 return (f"no-initialize/{e}", f"{e}: launched {noinit} but never sent initialize", {"launches": want})
-            if e == "loader" and o["raised"] is not None:
+            if e == "loader" and o["raised"] is not None and want:
                 return (f"raised/{e}", f"{e} raised {o['raised']['name']} on a valid configuration", None)
             return None
         # configuration errors: nothing may be launched; the loader raises the documented class
@@ -335,7 +474,7 @@ class Entry(Suite):
         env = "absent" if "env" not in sc else ("empty" if not sc["env"] else "values")
         t = sc.get("timeout")
         tk = "absent" if t is None else type(t).__name__
-        fam = "/family" if is_family(case["doc"]) else ""
+        fam = "/bare" if case.get("bare") else ("/family" if is_family(case["doc"]) else "")
         return f"{case['entry']}/valid/env-{env}/timeout-{tk}/named{len(case['names'])}of{len(case['doc']['mcpServers'])}{fam}"
 
     def nontrivial(self, case, o):
